@@ -10,6 +10,10 @@ mod c12;
 mod c02;
 mod c03;
 mod c04;
+mod c19;
+mod c20;
+mod c06;
+mod c07;
 mod c15;
 mod c18;
 mod session;
@@ -29,6 +33,10 @@ fn dispatch(prop: &str, case: &str) -> String {
         "C02" => c02::run(case),
         "C03" => c03::run(case),
         "C04" => c04::run(case),
+        "C19" => c19::run(case),
+        "C20" => c20::run(case),
+        "C06" => c06::run(case),
+        "C07" => c07::run(case),
         "C15" => c15::run(case),
         "C18" => c18::run(case),
         _ => "error:unknown-property".into(),
